@@ -473,4 +473,16 @@ theorem inv_run (s : OS) (es : List Ev) (h : Inv s) (hv : validRun s es = true) 
     simp [validRun] at hv
     exact ih (step s e) (inv_step s e h hv.1) hv.2
 
+/-- States reachable from a fresh operation by events the kernel contract and
+the `Future` contract allow. -/
+def Reachable (s : OS) : Prop :=
+  ∃ (multi : Bool) (es : List Ev), validRun (init multi) es = true ∧ s = run (init multi) es
+
+theorem reachable_inv {s : OS} (h : Reachable s) : Inv s := by
+  obtain ⟨m, es, hv, rfl⟩ := h
+  exact inv_run (init m) es (inv_init m) hv
+
+theorem reachable_of_run (multi : Bool) (es : List Ev) (hv : validRun (init multi) es = true) :
+    Reachable (run (init multi) es) := ⟨multi, es, hv, rfl⟩
+
 end A10.OpSys
